@@ -795,8 +795,9 @@ func scanFields(buf []byte, i int) (int, []byte, error) {
 		if buf[i] == '=' && !quoted {
 			equals++
 
-			// check for "... =123" but allow "a\ =123"
-			if buf[i-1] == ' ' && buf[i-2] != '\\' {
+			// check for "... =123" but allow "a\ =123"; the field section may also start right at
+			// the '=' after a tab or NUL was skipped as whitespace
+			if i == start || (buf[i-1] == ' ' && buf[i-2] != '\\') {
 				return i, buf[start:i], fmt.Errorf("missing field key")
 			}
 
